@@ -70,7 +70,7 @@ func evalC13(e *Eval) {
 	}
 	pkgs := map[string]*types.Package{"main": e.L.Root.Types}
 	for _, p := range e.L.Pkgs {
-		if p.Name == "inner" {
+		if p.Name == "inner" && p.Types != e.L.Root.Types {
 			pkgs["inner"] = p.Types
 		}
 	}
